@@ -383,7 +383,7 @@ def main(tier):
         "outside_the_claim": [
             "THE BODY OF C03: root enumeration (stack maps, handles, globals, wait lists), the copying / marking / sweeping / swiper algorithms, write-barrier emission and the remembered set, promotion, --gc-verify passes, OOM behaviour, the configuration matrix (collector x stress x TLAB x workers x heap sizes x code generators), whole-program invisibility of collections",
             "concurrent executions of try_mark / try_install_fwdptr (executed by one thread here) and memory orderings",
-            "ObjectHashMap at capacity != 8 (except the post-state of the overflow rehash to 16), histories longer than one step (covered by induction only for the stated invariant), capacity 0 (fresh table: remove() computes capacity - 1)",
+            "ObjectHashMap at capacity != 8 (except the post-state of the overflow rehash to 16 and the one scripted 20-operation history table16/tombstones-fill-table, whose skeleton is concrete and only the upper 52 key bits symbolic), histories longer than one step (covered by induction only for the stated invariant), capacity 0 (fresh table: remove() computes capacity - 1; callers test waiters != 0 first)",
             "ObjectHashMap with keys that are not 8-aligned object addresses: the invariant 'an EMPTY slot exists' is NOT inductive for arbitrary hashes because overflow() does not count tombstones (see table_invariant / finding note)",
             "Object::size / size_for_vtblptr (need a Shape in memory), visit_* walkers, fill_region, the code generators' own inline array size computation (C13)",
             "page size of the host other than 4 KiB / 16 KiB / 64 KiB for the os_page helpers",
